@@ -5,6 +5,8 @@ CONSTANTS
   ProcOf <- QProcOf
   Prog <- QProg
   Modes = {"fork", "spawn"}
+  QInit = {TRUE}
+  MaxToggle = 0
   CopyStep = TRUE
   Variant = "code"
 INVARIANT TypeOK
